@@ -147,7 +147,7 @@ def main():
     with open(os.path.join(wd, "styles.json"), "w") as fh:
         json.dump(styles, fh)
     rows = json.loads(vlib.harness(["render", "-exprs", os.path.join(wd, "trees.json"), "-styles", os.path.join(wd, "styles.json")]).stdout)
-    cap = 4000 if quick else 30000
+    cap = 4000 if quick else 12000
     seeds, expect, meta = [], [], []
     for r in rows:
         s = pegrun.syms(r["text"])
@@ -159,8 +159,9 @@ def main():
         seeds.append(s)
         expect.append(t)
         meta.append((r["i"], r["style"], r["text"]))
-    if quick and len(seeds) > 800:
-        idx = sorted(rnd.sample(range(len(seeds)), 800))
+    keep = 800 if quick else 15000
+    if len(seeds) > keep:
+        idx = sorted(rnd.sample(range(len(seeds)), keep))
         seeds, expect, meta = [seeds[i] for i in idx], [expect[i] for i in idx], [meta[i] for i in idx]
     world = pegrun.peg_world([], 0, 3, seeds, expect=expect)
     with open(os.path.join(wd, "expect.json"), "w") as fh:
